@@ -23,6 +23,7 @@ let hashes_str (l : hmsg list) =
 let rout_str = function
   | ROver st -> Printf.sprintf "over acks=%s m=%s" (acks_str st.r_acks) (string_of_z st.r_mstep)
   | RBlocked st -> Printf.sprintf "blocked acks=%s" (acks_str st.r_acks)
+  | RInvalid (st, n) -> Printf.sprintf "invalid acks=%s" (acks_str st.r_acks)
   | RPanic (st, n) -> Printf.sprintf "panic acks=%s" (acks_str st.r_acks)
   | RReadErr (st, n) -> Printf.sprintf "readerr acks=%s" (acks_str st.r_acks)
 
@@ -53,8 +54,8 @@ let () =
       Printf.sprintf "m=%s good=%s nacks=%s kok=%s" (s (abs_agreed b size cp)) (s (abs_good b size cp))
         (s (abs_nacks b size cp)) (str_of_bool (abs_stops_ok b size cp k))
     | _ -> "?args");
-  register "resume_recv" (function [dst; msgs] ->
-      rout_str (recv_hashes id_h (bytes_of_hex dst) (msgs_of msgs) r_init)
+  register "resume_recv" (function [b; dst; msgs] ->
+      rout_str (recv_hashes (Z.to_N (z_of b)) id_h (bytes_of_hex dst) (msgs_of msgs) r_init)
     | _ -> "?args");
   register "resume_acks" (function [size; acks] ->
       let acks = List.map (fun a -> match String.split_on_char ':' a with
